@@ -607,6 +607,11 @@ pub fn replay_main(path: &str, exe_normal: &str) -> i32 {
         }
     }
     match failed {
+        Some(f) if f.starts_with("NONDETERMINISM") => {
+            // the code under test has changed since the schedule was recorded: its choices no longer name enabled threads
+            println!("the recorded schedule cannot be followed on the current tree ({}): the code has changed since it was recorded; run the check again", f);
+            2
+        }
         Some(f) => {
             println!("REPRODUCED: {}", f);
             println!("VIOLATION property={} replay={}", prop, path);
